@@ -287,6 +287,8 @@ class C11(Prop):
         "AwProofs.C11.builtin_flood",
         "AwProofs.C11.builtin_union_no_overlap",
         "AwProofs.C11.builtin_rejects_non_list",
+        "AwProofs.C11.total_of_merged",
+        "AwProofs.C11.total_of_merged_text",
     ]
     TRUSTED = [
         "harness/registry_dump.py generates AwModel/Query/RegistryGen.lean from aw_query.functions on every run",
@@ -303,7 +305,7 @@ class C11(Prop):
         "query_means_text (for every well-formed program and every layout - arbitrary ASCII whitespace around , : = ; "
         "and either quote style with escaped quotes - running the rendered text gives exactly what the program denotes, "
         "for arbitrary builtin bodies over the registry generated from the source), expr_parse_render, stmt_parse_render, "
-        "layout_independent, call_denotes, args_in_order; builtin_<name> (14 registered builtins, called through the generated registry's call protocol, equal their transform models for every argument list; builtin_rejects_non_list); all three planned stages reached, no _partial theorem; the "
+        "layout_independent, call_denotes, args_in_order; builtin_<name> (14 registered builtins, called through the generated registry's call protocol, equal their transform models for every argument list; builtin_rejects_non_list); total_of_merged(_text): the query sum_durations(merge_events_by_keys(query_bucket(b), keys)), as text under any layout, yields the total duration of the windowed read (reads, call protocol, wrappers and C16's conservation law composed); all three planned stages reached, no _partial theorem; the "
         "model, its render and its denote are compared with the real code and an independent Python reference on every run"
     )
     LEVEL_NOTE = "trusts: Lean kernel + propext/Quot.sound; model-code tie is differential (programs x layouts); ASCII, strings without ; and backslash; builtin bodies arbitrary in the parser theorems, 14 of them identified with the transform models (builtin_*), the 5 regex/URL ones parameters"
